@@ -285,14 +285,15 @@ def c11(tier):
     s3 = [s for s in c11_shapes(3) if s.count('B') + s.count('U') >= 2]
     if q:
         random.Random(SEED[0]).shuffle(s3)
-        s3 = s3[:60]
+        s3 = s3[:40]
     shapes += s3
     jobs = []
     for sh in shapes:
         for red in (0, 1):
             jobs.append((H('parser', 'HarnessC11RoundTrip'), P('parser'), None, {'params': {'shape': sh, 'redundant': red}, 'label': '%s redundant=%d' % (sh, red), 'job_timeout': 900}))
-    for t in ['a^not^in^b', 'a~+~b~*~c', 'not^a', 'a~?~b~:~c', 'f(~a~,~b~)', '[~a~,~b~]', '{~a~:~b~}', 'a~.b', 'a~?.b', 'a~[~1~:~2~]', 'all(~xs~,~{~#~>~1~}~)',
-              '"s"^matches^"p"', 'a~..~b', '-~a', 'a~**~-~b', 'a^and^not^b', 'a^or^b^and^c', 'a~==~b^in^c', '(~a~)~+~1', 'a^not^in^[~1~]', 'x^contains^y', 'a~?:~b']:
+    for t in ['a^not^in^b', 'a~+~b~* c', 'not^a', 'a~?~b~:~c', 'f(~a~,~b)', '[~a~,~b~]', '{a~:~b~}', 'a~.b', 'a~?.b', 'a[~1~:~2~]', 'all(xs~,~{#~> 1}~)',
+              '"s"^matches^"p"', 'a~..~b', '-~a', 'a~**~-~b', 'a^and^not^b', 'a^or^b^and^c', 'a~==~b^in^c', '(~a~)~+ 1', 'a^not^in^[1]', 'x^contains^y', 'a~?:~b']:
+        assert t.count('~') + t.count('^') <= 4
         jobs.append((H('parser', 'HarnessC11Whitespace'), P('parser'), None, {'params': {'tmpl': t}, 'label': 'whitespace ' + t, 'split_after': 40, 'job_timeout': 900}))
     meta = {
         'explanation': 'whitespace: token sequences laid out with SYMBOLIC whitespace bytes (space, tab, line break, carriage return; optional where no separator is needed) parse to the same tree as with single spaces. Round trip through the REAL parser (parseExpression/parsePrimary/parseConditionalExpression/parsePostfixExpression/next/expect, Token.Is) on token sequences printed from a tree shape with only the parentheses the documented precedence/associativity table requires (and with one redundant pair around a symbolically chosen subterm): every operator is symbolic - its level is forked, the operator within the level is a symbolic index, so binaryOperators[token] is an if-then-else term and the climbing test op.precedence >= precedence is decided by z3; asserted: accepted, and the parsed tree equals the printed tree',
